@@ -1,4 +1,5 @@
 import MgProof.C02.LemmasE
+import MgProof.C02.Spur
 /-! The combined invariant of the ring-buffer model, its preservation by every step, and the
 lift to every reachable state (all schedules, all lengths, any number of writers and readers). -/
 namespace MgProof.C02
@@ -106,14 +107,39 @@ theorem inv_step {c : Cfg} {e : Nat} (wf : WF c e) {s s' : St} {t : Nat} (h : In
     fun hm => invC_step wf hm h.a1 h.a2 h.b (h.k hm) hs,
     fun hm => ⟨invD_step wf hm h.a1 h.a2 h.b (h.d hm).1 hs, gotD_step (h.d hm).1 (h.d hm).2 hs⟩⟩
 
-/-- the invariant holds after every schedule -/
+/-- a spurious return of `futex_wait` preserves the invariant -/
+theorem inv_spur {c : Cfg} {s s' : St} {t : Nat} (h : InvAll c s)
+    (hs : spurSt c s t = some s') : InvAll c s' := by
+  have heq := (spur_eq hs).2
+  refine ⟨invA1_spur h.a1 hs, invA2_spur h.a2 hs, invB_spur h.b hs, invE_spur h.e hs, ?_,
+    fun hm => invC_spur hm (h.k hm) hs, fun hm => ⟨invD_spur hm (h.d hm).1 hs, ?_⟩⟩
+  · rw [heq]; exact h.oob
+  · have g := (h.d hm).2
+    unfold GotD at g ⊢
+    rw [heq]; exact g
+
+/-- a step of the interleaving semantics is a spurious futex return or a regular step -/
+theorem step_cases {c : Cfg} {s s' : St} {tok : Tok} {ev : List String}
+    (hs : step c s tok = some (s', ev)) :
+    spurSt c s tok.tid = some s' ∨ stepSt c s tok.tid = some s' := by
+  simp only [step] at hs
+  split at hs
+  · simp only [Option.map_eq_some_iff] at hs
+    obtain ⟨s1, hs1, heq⟩ := hs
+    cases heq
+    exact Or.inl hs1
+  · simp only [Option.map_eq_some_iff] at hs
+    obtain ⟨s1, hs1, heq⟩ := hs
+    cases heq
+    exact Or.inr hs1
+
+/-- the invariant holds after every schedule (spurious futex returns included) -/
 theorem inv_reach {c : Cfg} {e : Nat} (wf : WF c e) {s : St} (hr : Reach (step c) (mkInit c) s) :
     InvAll c s := by
   refine Reach.inv (InvAll c) (inv_init wf) ?_ s hr
   intro s tok s' ev h hs
-  simp only [step, Option.map_eq_some_iff] at hs
-  obtain ⟨s1, hs1, heq⟩ := hs
-  cases heq
-  exact inv_step wf h hs1
+  rcases step_cases hs with hs1 | hs1
+  · exact inv_spur h hs1
+  · exact inv_step wf h hs1
 
 end MgProof.C02
